@@ -100,10 +100,15 @@ class Check:
         known = load_known()
         openk = {e['key']: e for e in known.get('open', []) if e.get('property') == self.pid}
         new, matched = [], []
+        seen_new = set()
         for f in self.findings:
             if only and only not in f.key:
                 continue
-            (matched if f.key in openk else new).append(f)
+            if f.key in openk:
+                matched.append(f)
+            elif f.key not in seen_new:
+                seen_new.add(f.key)
+                new.append(f)
         os.makedirs(os.path.join(EVID, 'replay'), exist_ok=True)
         # stale replay files of this property are removed on every run
         for fn in os.listdir(os.path.join(EVID, 'replay')):
